@@ -68,6 +68,8 @@ class VFS(object):
     def open(self, path, mode='r', *a, **kw):
         if 'b' not in mode:
             raise NotImplementedError('text mode open(%r, %r)' % (path, mode))
+        if getattr(self, 'fail_writes', False) and ('w' in mode or 'a' in mode):
+            raise OSError(errno.ENOSPC, 'No space left on device', path)
         return FakeFile(self, path, mode)
 
 
